@@ -88,10 +88,10 @@ class ExecutorBase(FutureExecutor):
             Future: A Future representing the given call.
         """
         cores = resource_dict.get("cores", None)
+        threads_per_core = resource_dict.get("threads_per_core", 1)
         if (
-            cores is not None
-            and self._max_cores is not None
-            and cores > self._max_cores
+            self._max_cores is not None
+            and (1 if cores is None else cores) * threads_per_core > self._max_cores
         ):
             raise ValueError(
                 "The specified number of cores is larger than the available number of cores."
